@@ -92,6 +92,13 @@ func (fc *FnCtx) evalSpec(env *Env, e *Expr) Val {
 	case "forall":
 		lo := fc.evalSpec(env, e.Args[0])
 		hi := fc.evalSpec(env, e.Args[1])
+		if fc.concrete && lo.T.isInt() && hi.T.isInt() && lo.T.Val.IsInt64() && hi.T.Val.IsInt64() && hi.T.Val.Int64()-lo.T.Val.Int64() <= 256 {
+			var cs []*Term
+			for k := lo.T.Val.Int64(); k < hi.T.Val.Int64(); k++ {
+				cs = append(cs, fc.evalSpecBool(env.with(e.Name, mathInt(mkI(k))), e.Args[2]))
+			}
+			return boolVal(mkAnd(cs...))
+		}
 		fc.nfresh++
 		vn := fmt.Sprintf("?%s_%d", e.Name, fc.nfresh)
 		bv := mkConst(vn, SInt)
@@ -384,6 +391,14 @@ func (fc *FnCtx) specCall(env *Env, e *Expr) Val {
 		return mathInt(mkP10(arg(0).T))
 	case "wordsok":
 		s := fc.specSliceArg(env, e.Args[0])
+		if fc.concrete && s.Len.isInt() && s.Len.Val.IsInt64() && s.Len.Val.Int64() <= 256 {
+			var cs []*Term
+			for k := int64(0); k < s.Len.Val.Int64(); k++ {
+				el := fc.memSel(env.heap, s.Arr, mkAdd(s.Off, mkI(k)))
+				cs = append(cs, mkAnd(mkLe(mkI(0), el), mkLt(el, mkInt(specB))))
+			}
+			return boolVal(mkAnd(cs...))
+		}
 		fc.nfresh++
 		vn := fmt.Sprintf("?w_%d", fc.nfresh)
 		bv := mkConst(vn, SInt)
@@ -497,6 +512,13 @@ func (fc *FnCtx) specCall(env *Env, e *Expr) Val {
 
 // wordsEqual: same length and same words, a read in heap ha, b in heap hb.
 func (fc *FnCtx) wordsEqual(ha map[string]*Term, a Val, hb map[string]*Term, b Val) *Term {
+	if fc.concrete && a.Len.isInt() && a.Len.Val.IsInt64() && a.Len.Val.Int64() <= 256 {
+		cs := []*Term{mkEq(a.Len, b.Len)}
+		for k := int64(0); k < a.Len.Val.Int64(); k++ {
+			cs = append(cs, mkEq(fc.memSel(ha, a.Arr, mkAdd(a.Off, mkI(k))), fc.memSel(hb, b.Arr, mkAdd(b.Off, mkI(k)))))
+		}
+		return mkAnd(cs...)
+	}
 	fc.nfresh++
 	vn := fmt.Sprintf("?u_%d", fc.nfresh)
 	bv := mkConst(vn, SInt)
